@@ -364,3 +364,54 @@ Proof.
     eapply Forall_impl; [|exact H2]. cbn. tauto.
   - intros ps dt. apply (relay_run_limit ps _ []). left. cbn. lia.
 Qed.
+
+(* ---------------------------------------------------------------------------------------- *)
+(* non-vacuity and the necessity of the side conditions *)
+Definition sample_map : fmap :=
+  MkFM [MkFC [99] [] [] [] 5 0; MkFC [100] [] [] [] 7 0]
+       [MkFT [116] [] [] [] 2 0 0 0 0 0 0 0 0 [0%Z; 0%Z] [] None]
+       [MkFG [103] [] [] [] 0] [].
+Definition all_on : mask := MkMask false false false false false false false false false.
+Definition all_off : mask := MkMask true true true true true true true true true.
+
+(* hypotheses of the conservation theorems hold on a map with three kinds of series, and the
+   batches really split: 2 + 2 + 9 + 1 items, perBatch 25 -> flush after the timer *)
+Example sample_groups_nonempty : Forall (fun g => g <> []) (dd_groups (fun _ => []) all_on sample_map).
+Proof. repeat constructor; discriminate. Qed.
+Example sample_datadog_sizes :
+  map (@length item) (datadog_payloads (fun _ => []) 25 all_on sample_map) = [13; 1]%nat.
+Proof. vm_compute. reflexivity. Qed.
+
+(* without the side condition the claim fails: a timer with every sub-metric disabled and
+   perBatch <= 20 makes maybeFlush emit an empty batch *)
+Example datadog_empty_batch :
+  In [] (datadog_payloads (fun _ => []) 20 all_off (MkFM [] (fm_timers sample_map) [] [])).
+Proof. vm_compute. left. reflexivity. Qed.
+(* and a line longer than the packet size makes the relay hand over an empty buffer first *)
+Example relay_empty_datagram : relay_batches 3 [[97; 98; 99; 10]] = [[]; [[97; 98; 99; 10]]].
+Proof. reflexivity. Qed.
+(* OTLP: a count that is a multiple of the batch size leaves an empty trailing batch *)
+Example otlp_trailing_empty : otlp_batches 2 [1; 2; 3; 4] = [[1; 2]; [3; 4]; []].
+Proof. reflexivity. Qed.
+Example cloudwatch_chunks : option_map (map (@length nat)) (cw_batches 20 (seq 0 45)) = Some [20; 20; 5]%nat.
+Proof. vm_compute. reflexivity. Qed.
+
+(* when is a Datadog group empty?  only a timer's: an empty (non-nil) histogram map, or every
+   sub-metric disabled and no percentile *)
+Lemma enabled_subs_nonempty mk t : some_enabled mk = true -> enabled_subs mk t <> [].
+Proof.
+  unfold some_enabled, enabled_subs, timer_subs. intros H.
+  destruct mk as [a b c d e f g h i]; cbn [d_lower d_upper d_count d_count_ps d_mean d_median d_stddev d_sum d_sumsq] in *.
+  destruct a, b, c, d, e, f, g, h, i; try discriminate H; cbn; discriminate.
+Qed.
+Lemma datadog_no_empty_batch fmt_s pb mk m :
+  some_enabled mk = true -> Forall (fun t => ft_hist t <> Some []) (fm_timers m) ->
+  Forall (fun b => b <> []) (datadog_payloads fmt_s pb mk m).
+Proof.
+  intros Hm Ht. apply conserve_datadog. unfold dd_groups.
+  repeat (apply Forall_app; split); apply Forall_forall; intros g Hg; apply in_map_iff in Hg;
+    destruct Hg as (x & <- & Hin); try discriminate.
+  unfold dd_timer. rewrite Forall_forall in Ht. specialize (Ht x Hin).
+  destruct (ft_hist x) as [[|b h]|]; [congruence | discriminate |].
+  pose proof (enabled_subs_nonempty mk x Hm). destruct (enabled_subs mk x); [congruence | discriminate].
+Qed.
